@@ -366,15 +366,19 @@ C06_UndesiredDeletedBackground ==
 Issued(c, verb, k) == <<verb, k>> \in c.issued
 ManageRan(c) == Reached(c) /\ (~Cur(c).deleting \/ (FinOn /\ HasFin(Cur(c), c) /\ ~GCFin(Cur(c))))
 C06_Complete ==
-  (IsEv("SyncEnd") /\ E.a \in DOMAIN ctx /\ ctx[E.a].active /\ ManageRan(ctx[E.a]) /\ ~AnyRolling /\ ~("apply" \in DOMAIN cfg /\ cfg.apply = "ssa")
+  (IsEv("SyncEnd") /\ E.a \in DOMAIN ctx /\ ctx[E.a].active /\ ManageRan(ctx[E.a]) /\ ~AnyRolling
      /\ ctx[E.a].failedReqs = <<>> /\ E.result = "ok")
-  => LET c == ctx[E.a] IN
+  => LET c == ctx[E.a]
+         \* server-side apply: children are created by an apply patch; an existing child is re-applied only when the desired
+         \* object changed since the last apply (a process-wide memo), so nothing is demanded for a differing child there
+         ssa == "apply" \in DOMAIN cfg /\ cfg.apply = "ssa" IN
      /\ \A k \in OwnedObs(c) : (k \notin DesiredKeys(c) /\ ~c.obs[k].deleting)
             => (Issued(c, "delete", k) \/ Report("C06", "C06_Complete", <<"undesired child not deleted", k>>))
      /\ \A k \in DesiredKeys(c) : (k \notin OwnedObs(c))
-            => (Issued(c, "create", k) \/ Report("C06", "C06_Complete", <<"missing child not created", k>>))
+            => (Issued(c, "create", k) \/ (ssa /\ Issued(c, "apply", k)) \/ Report("C06", "C06_Complete", <<"missing child not created", k>>))
      /\ \A k \in DesiredKeys(c) : (k \in OwnedObs(c) /\ ~c.obs[k].deleting /\ DiffersInOwned(c.obs[k], DesiredOf(c, k)))
             => LET m == MethodOf(k[1]) IN
+               \/ ssa
                \/ m \in {"-", "OnDelete"} \/ m \notin {"Recreate", "InPlace", "RollingRecreate", "RollingInPlace"}
                \/ (m \in {"Recreate", "RollingRecreate"} /\ Issued(c, "delete", k))
                \/ (m \in {"InPlace", "RollingInPlace"} /\ Issued(c, "update", k))
